@@ -13,6 +13,10 @@ manuals) and tla/Linker.tla (where symbols and fields end up) + TLC.
                    S + A with S, P recomputed by Linker.tla, untouched bits must be preserved,
                    control-transfer instructions must still decode to a branch to the symbol, and a
                    value that does not fit must end in a failure
+  T  Relax_Trace   riscv:rvc links in which do_relaxations shrinks an earlier section by 2, 4 or 6 bytes:
+                   references (lui/addi %hi/%lo, auipc/addi pc-relative, data words, jal / beq) to symbols
+                   in the later, moved sections and behind the shrink point must designate the symbol's
+                   address in the FINAL layout (S, P recomputed by Relax.tla's RelaxWith + Linker.tla)
   E  Reloc_Eval    the same judgement for layouts whose addresses exceed TLC's integers (32-bit field
                    boundaries of x86-64 and of 32-bit absolute words), S and P recomputed with 64-bit
                    word arithmetic from the projected section addresses
@@ -179,6 +183,107 @@ def wide_records(job, jid):
     return recs, events
 
 
+# ---------------------------------------------------------------------------
+# riscv:rvc: references across a relaxation (the resolved value is the symbol's address after every
+# size-changing step)
+def gen_rvc_job(rng, jid):
+    from engines import c13
+    from harness import rvlink
+
+    nshrink = rng.choice([1, 2, 2, 3])              # 2, 4, 6 bytes freed in section code
+    secs = ["code", "data"] + (["rodata"] if rng.random() < 0.4 else [])
+    code = ["global start", "global mid", "global tbl", "global rtab", "section code", "start:"]
+    refs_code = ["lui x5, tbl", "addi x5, x5, tbl", "la x7, tbl", "la x6, mid", "lui x8, mid", "addi x8, x8, mid",
+                 "jal x5, mid", "beq x5, x6, mid", "la x9, dloc", "lui x5, start", "addi x5, x5, start"]
+    if "rodata" in secs:
+        refs_code += ["la x7, rtab", "lui x5, rtab", "addi x5, x5, rtab"]
+    if rng.random() < 0.4:                          # references in front of the shrink point as well
+        code += rng.sample(refs_code, rng.choice([1, 2]))
+    for k in range(nshrink):
+        kind = rng.choice(["cb", "cb", "cbl"])
+        code.append(rvlink.cb("n%d" % k) if kind == "cb" else rvlink.cbl(1, "n%d" % k))
+        if rng.random() < 0.5:
+            code.append("addi x10, x10, %d" % (k + 1))
+        code.append("n%d:" % k)
+        code.append("addi x11, x11, 1")
+    code.append("mid:")                             # behind the shrink point, in the shrunk section
+    code += rng.sample(refs_code, rng.choice([2, 3, 4, 5]))
+    code += ["jalr x0, x1, 0", "pool:"]
+    if nshrink % 2 == 0:     # a literal pool stays word aligned only if a multiple of 4 bytes is freed in front of it
+        code += ["dcd =tbl", "dcd =mid", "dcd =pool"] + (["dcd =dloc"] if rng.random() < 0.5 else [])
+    else:
+        code.append("addi x12, x12, 0")
+    data = ["section data"] + (["dd 0x11223344"] if rng.random() < 0.6 else []) + ["tbl:", "dcd =tbl", "dcd =start",
+                                                                                    "dcd =mid", "dloc:", "dcd =dloc", "dcd =pool"]
+    if "rodata" in secs:
+        data += ["section rodata", "rtab:", "dcd =rtab", "dcd =tbl", "dcd =mid"]
+    two = rng.random() < 0.3
+    if two:   # the later sections come from a second object
+        scripts = [code, ["global start", "global mid", "global tbl", "global rtab", "global dloc", "global pool"] + data]
+        scripts[0] = ["global dloc", "global pool"] + scripts[0]
+    else:
+        scripts = [code + data]
+    try:
+        objects = [rvlink.build_object(c13.MARCH, sc) for sc in scripts]
+    except Exception:
+        return None
+    base = rng.choice([0x1000, 0x400, 0x20000])
+    mode = rng.choice(["flat", "flat", "flat", "split", "none"])
+    if mode == "flat":
+        mems = [c13.mem("flash", base, 0x1000, secs)]
+    elif mode == "split":
+        mems = [c13.mem("flash", base, 0x800, secs[:1]), c13.mem("ram", base + 0x4000, 0x800, secs[1:])]
+    lay = {"on": True, "entry": "", "mems": mems} if mode != "none" else objgen.NO_LAYOUT
+    return {"id": jid, "arch": c13.MARCH, "objects": objects, "lay": lay,
+            "opt": {"partial": False, "entry": "", "extra": []}, "via_text": False, "ctl": set(),
+            "aim": {"type": "relaxed", "d": 2 * nshrink, "line": mode},
+            "src": "\n".join("; object %d\n" % i + "\n".join(x if isinstance(x, str) else "<%s>" % x.__qualname__ for x in sc)
+                              for i, sc in enumerate(scripts))}
+
+
+def judge_relaxed(ctx, jobs, traces):
+    """Relax_Trace over the traces; only what concerns resolved references is C11's (the relaxation step itself is
+    judged by C13)"""
+    from engines import c13
+
+    path = ctx.trace_file(traces)
+    res = ctx.tlc("Relax_Trace", c13.trace_cfg(), label="T: references across relaxation", env={"TRACE_FILE": path},
+                  continue_=True, workers=8, timeout=3000, coverage=False)
+    ctx.cov["traces_validated_against_impl"] += len(traces)
+    byid = {j["id"]: j for j in jobs}
+    seen = set()
+    other = []
+    for e in res.errors:
+        st = e.last
+        idx = st.get("job")
+        if not isinstance(idx, int) or not 1 <= idx <= len(traces):
+            raise tlcmod.MachineryError("TLC error without trace index in Relax_Trace: %s\n%s" % (e, e.text[:2000]))
+        rec = traces[idx - 1]
+        if e.name == "DomainR":
+            raise tlcmod.MachineryError("trace %s is outside the domain of Relax_Trace (harness fault)" % rec["id"])
+        if (idx, e.name) in seen or e.name == "I_AsTranscribed":
+            continue
+        seen.add((idx, e.name))
+        why = st.get("why") or ""
+        if e.name == "NotRejected" and st.get("ph") == "relocate" and why.startswith("relocation "):
+            job = byid[rec["id"]]
+            rtype = why.split()[1].rstrip(":")
+            cls = ("unfit-linked" if "not representable" in why else "failed-though-fits" if "although its value fits" in why
+                   else "wrong-field")
+            if cls == "failed-though-fits":
+                other.append(rec["id"])
+                continue
+            ctx.violation("C11:riscv-rvc:%s:%s:relaxed=%d:%s:%s" % (rtype, cls, job["aim"]["d"], job["aim"]["line"], rec["id"]),
+                          "link %s (relaxation frees %d bytes of section code, layout %s): at event %s %s - the "
+                          "reference is not resolved to the symbol's address in the final layout" % (
+                              rec["id"], job["aim"]["d"], job["aim"]["line"], st.get("l"), why),
+                          {"id": rec["id"], "clause": e.name, "why": why, "event": st.get("l"), "lay": rec["lay"],
+                           "source": job["src"][:6000], "sections_after_relaxation_name_addr_align_size": st.get("secs")})
+        else:
+            other.append(rec["id"])       # the relaxation step / placement: property C13's verdict
+    return res, other
+
+
 class Engine:
     LEVEL = "model_checking"
 
@@ -244,6 +349,34 @@ class Engine:
         for part in core.chunks(traces, 600):
             _, sp = c12.judge_traces(ctx, part, True, P, "T: assembled links", key)
             spurious += sp
+        # ---- T: references across relaxation (riscv:rvc)
+        rjobs = []
+        tries = 0
+        while len(rjobs) < (150 if thorough else 24) and tries < 2000:
+            tries += 1
+            jid = "rvc-%d" % tries
+            job = gen_rvc_job(random.Random("%s:c11rvc:%d" % (ctx.seed, tries)), jid)
+            if job is not None and (only is None or jid == only):
+                rjobs.append(job)
+            elif job is not None and only is not None and jid != only:
+                continue
+        if rjobs:
+            from engines import c13
+
+            rtraces = []
+            moved = 0
+            for job in rjobs:
+                tr, out = c13.run_trace(job)
+                tr["aim"] = job["aim"]
+                rtraces.append(tr)
+                ctx.count(job["id"])
+                moved += 1 if c13.relaxed_count(tr) > 0 else 0
+            ctx.cov["rvc_links_with_shrunk_jumps"] = moved
+            _, other = judge_relaxed(ctx, rjobs, rtraces)
+            ctx.cov["rvc_links_refused_for_relaxation_itself_C13"] = len(other)
+            if other:
+                ctx.note("%d riscv:rvc links refused at the relaxation step or failing though the value fits (property "
+                         "C13's verdict), e.g. %s" % (len(other), other[:3]))
         # ---- E
         recs = []
         n_wide = 240 if thorough else 45
